@@ -18,5 +18,7 @@ class NegatedExpression(Node):
     def parse(self, scope):
         val, = self.process(self.tokens, scope)
         if isinstance(val, string_types):
+            if val.startswith('-'):
+                return val[1:]
             return '-' + val
         return -val
